@@ -968,9 +968,13 @@ class PendingFunctionDef(_PendingCompoundStmt[FunctionDef]):
                 keywords=[],
             )
 
-        if self.internal_nsp.is_method and self.node.name == "__init_subclass__":
+        if self.internal_nsp.is_method and self.node.name in (
+            "__init_subclass__",
+            "__class_getitem__",
+        ):
             # We need to add a @classmethod for __init_subclass__
             # that's really weird, but really solves problem
+            # (both methods are implicit class methods)
             body_expr = Call(
                 func=Name(id="classmethod", ctx=Load()),
                 args=[body_expr],
